@@ -252,6 +252,20 @@ pub fn string_domain_len(tier: Tier, d: &Decl, l: usize) -> Vec<Val> {
         let d: String = std::iter::repeat('7').take(n).collect();
         v.push(d);
     }
+    // large length bounds (255/256, 65535/65536: where a narrowed counter would wrap): single-character runs
+    // one below, at and one above the bound, with 1-, 2- and 4-byte characters
+    for b in decl_bounds(d).iter().filter_map(|b| if let Val::U(n) = b { Some(*n as usize) } else { None }) {
+        if b > 24 && b <= 70_000 {
+            for n in [b - 1, b, b + 1] {
+                for c in ['a', 'ß', '🦀'] {
+                    v.push(std::iter::repeat(c).take(n).collect());
+                }
+                let mut s: String = std::iter::repeat('b').take(n).collect();
+                s.push(' ');
+                v.push(s);
+            }
+        }
+    }
     v.into_iter().map(Val::S).collect()
 }
 
